@@ -113,4 +113,7 @@ MUTANTS = [
     F("C03", "rotated seek_until that forgets to test the first window", "kd_buf_parser.py",
       "    found = reader.read(len(data))\n    while found != data:\n        byte = reader.read(1)\n        if not byte:\n            raise EOFError(f'{data!r} was not found before the end of the stream')\n        found = found[1:] + byte\n",
       "    from functools import partial\n    window = reader.read(len(data))\n    for byte in iter(partial(reader.read, 1), b''):\n        window = window[1:] + byte\n        if window == data:\n            return\n    raise EOFError(f'{data!r} was not found before the end of the stream')\n", None),
+    F("C03", "thread-map name read as PaddedString (shared entry layout)", "kd_buf_parser.py",
+      "'process' / FixedSized(0x14, CString('utf8')),", "'process' / PaddedString(0x14, 'utf8'),", "R9",
+      more=[("kd_buf_parser.py", "from construct import Adapter,", "from construct import PaddedString, Adapter,")]),
 ]
